@@ -9,6 +9,8 @@ import (
 	"fmt"
 	"math"
 	"math/big"
+	"sync"
+	"sync/atomic"
 	"time"
 
 	powv2 "github.com/wollac/iota-crypto-demo/pkg/pow/v2"
@@ -21,7 +23,7 @@ import (
 func init() {
 	fw.Register(&fw.Prop{
 		ID: "C12",
-		Rule: "lane (hook level): message lengths 8..65536 and targets t such that lx = len*t spans 8..2^64-1 including 3^k-1, 3^k, 3^k+1 and the 64-bit edge; s and T are obtained from the real sufficientTrailingZeros/targetHash exactly as Mine does (not asserted); 64-lane bit-plane states with lanes drawn from: random trits, exactly s-2, s-1, s, s+1, 243 trailing zeros, s-1 zeros with hash in {T-1, T, T+1}, hashes whose difficulty equals lx exactly / lx+1 / lx-1, all-zero and all-(-1) hashes, placed at lane 0, lane 63, several lanes, no lane. Oracle: a returned lane i < 64 must have difficulty floor(3^243/h_i) >= lx; a return of 64 means no lane has difficulty > lx. toint: toInt(trits) == 1 + sum d_i 3^i. score: Score(msg) == min(floor(d/len), 2^64-1) with d from the model hash. mine: Mine(1 worker) must return a nonce with Score >= t and no nonce in the 64-blocks before the returned one's block may have difficulty > lx (every skipped nonce is re-hashed by the model); Mine(2..16 workers) soundness; t = 0 returns at once. " +
+		Rule: "lane (hook level): message lengths 8..65536 and targets t such that lx = len*t spans 8..2^64-1 including 3^k-1, 3^k, 3^k+1 and the 64-bit edge; s and T are obtained from the real sufficientTrailingZeros/targetHash exactly as Mine does (not asserted); 64-lane bit-plane states with lanes drawn from: random trits, exactly s-2, s-1, s, s+1, 243 trailing zeros, s-1 zeros with hash in {T-1, T, T+1}, hashes whose difficulty equals lx exactly / lx+1 / lx-1, all-zero and all-(-1) hashes, placed at lane 0, lane 63, several lanes, no lane. Oracle: a returned lane i < 64 must have difficulty floor(3^243/h_i) >= lx; a return of 64 means no lane has difficulty > lx. toint: toInt(trits) == 1 + sum d_i 3^i. score: Score(msg) == min(floor(d/len), 2^64-1) with d from the model hash. mine: Mine(1 worker) must return a nonce with Score >= t and no nonce in the 64-blocks before the returned one's block may have difficulty > lx (every skipped nonce is re-hashed by the model); Mine(2..16 workers) soundness; t = 0 returns at once. shared: two demanding Mine calls (lx just below a power of three) and a looping easy one run concurrently on ONE *Worker; every returned nonce must meet its own target. " +
 			"Non-trivial: lane cases that reach the big-integer comparison (a lane with exactly s-1 zeros and none with s), mine cases whose scan covered at least one full block, all toint cases with a non-zero high chunk.",
 		Assumptions: []string{"BLAKE2b-256 (x/crypto), math/big", "the Curl-P-81 / b1t6 model in harness/oracle/curlp (self-tested)", "Score's big-integer fall-back (difficulty >= 2^64) needs a hash with >= 41 trailing zeros and is unreachable through Score; only toInt is checked on such vectors"},
 		SelfTest:    curlp.SelfTest,
@@ -36,10 +38,12 @@ func init() {
 				return map[string]interface{}{"seed": fw.GetU64(p[0]), "style": p[1][0]}
 			case "score":
 				return map[string]interface{}{"msg": fw.Hex(p[0])}
+			case "shared":
+				return map[string]interface{}{"seed": fw.GetU64(p[0]), "scenario": "two demanding and one looping easy Mine call run concurrently on one *Worker"}
 			}
 			return map[string]interface{}{"data": fw.Hex(p[0]), "target": fw.GetU64(p[1]), "workers": p[2][0]}
 		},
-		Required:      []string{"lane returned<64 sound", "lane returned 64 and nothing passed over", "lane reached big-int stage", "toint ok", "score ok", "mine ok", "mine blocks scanned", "lane: candidate with difficulty == lx"},
+		Required:      []string{"lane returned<64 sound", "lane returned 64 and nothing passed over", "lane reached big-int stage", "toint ok", "score ok", "mine ok", "shared-worker executions", "mine blocks scanned", "lane: candidate with difficulty == lx"},
 		WatchdogQuick: 900,
 	})
 }
@@ -130,6 +134,8 @@ func judge(class string, key []byte, o *fw.Obs) {
 			return
 		}
 		o.Count("toint ok")
+	case "shared":
+		judgeShared(fw.GetU64(p[0]), o)
 	case "score":
 		msg := p[0]
 		o.Nontrivial()
@@ -312,6 +318,94 @@ func judgeLane(seed uint64, dataLen int, t uint64, o *fw.Obs) {
 	o.Count("lane returned 64 and nothing passed over")
 }
 
+// judgeShared: several goroutines mine concurrently on ONE *Worker with different data and targets
+// (a Worker holds only its worker count, so sharing it is ordinary use); every returned nonce must be sound.
+func judgeShared(seed uint64, o *fw.Obs) {
+	o.Nontrivial()
+	r := fw.SubRng(int64(seed), "c12-shared")
+	w := powv2.New(1 + r.Intn(4))
+	type job struct {
+		data []byte
+		t    uint64
+	}
+	pow3 := func(k int) uint64 {
+		v := uint64(1)
+		for i := 0; i < k; i++ {
+			v *= 3
+		}
+		return v
+	}
+	mk := func(lx uint64) job {
+		l := r.Intn(60)
+		d := make([]byte, l)
+		r.Read(d)
+		t := lx / uint64(l+8)
+		if t == 0 {
+			t = 1
+		}
+		return job{d, t}
+	}
+	// two demanding jobs just below a power of three (few hashes with s-1 zeros qualify) and one easy job looped meanwhile
+	hard := []job{mk(pow3(6+r.Intn(2)) - uint64(1+r.Intn(20))), mk(pow3(5+r.Intn(3)) - uint64(1+r.Intn(20)))}
+	easy := mk(uint64(8 + r.Intn(20)))
+	type outcome struct {
+		j     job
+		nonce uint64
+		err   error
+		pan   interface{}
+	}
+	ctx, cancel := context.WithTimeout(context.Background(), 300*time.Second)
+	defer cancel()
+	results := make(chan outcome, 4096)
+	run := func(j job) outcome {
+		oc := outcome{j: j}
+		func() {
+			defer func() { oc.pan = recover() }()
+			oc.nonce, oc.err = w.Mine(ctx, j.data, j.t)
+		}()
+		return oc
+	}
+	var wg sync.WaitGroup
+	var stop int32
+	for _, j := range hard {
+		wg.Add(1)
+		go func(j job) { defer wg.Done(); results <- run(j) }(j)
+	}
+	done := make(chan struct{})
+	go func() {
+		defer close(done)
+		for n := 0; atomic.LoadInt32(&stop) == 0 && n < 4000; n++ {
+			results <- run(easy)
+		}
+	}()
+	wg.Wait()
+	atomic.StoreInt32(&stop, 1)
+	<-done
+	close(results)
+	for oc := range results {
+		if oc.pan != nil {
+			o.Fail("panic", "concurrent Mine on a shared Worker panicked: %v", oc.pan)
+			return
+		}
+		if oc.err != nil {
+			if ctx.Err() != nil {
+				o.Inconclusive("concurrent Mine calls did not finish within 300 s")
+			} else {
+				o.Fail("error", "concurrent Mine on a shared Worker returned %v", oc.err)
+			}
+			return
+		}
+		msg := append(append([]byte(nil), oc.j.data...), make([]byte, 8)...)
+		binary.LittleEndian.PutUint64(msg[len(oc.j.data):], oc.nonce)
+		if ms := modelScore(msg); ms < oc.j.t {
+			o.Fail("unsound", "with several Mine calls running concurrently on one Worker, Mine(len(data)=%d, target=%d) returned nonce %d with score %d below the target (the other calls used targets %d, %d, %d)", len(oc.j.data), oc.j.t, oc.nonce, ms, hard[0].t, hard[1].t, easy.t)
+			return
+		}
+		o.Count("shared-worker results checked")
+	}
+	o.Count("shared-worker executions")
+}
+
 func judgeMine(data []byte, t uint64, workers int, o *fw.Obs) {
 	n := len(data) + 8
 	lx := new(big.Int).Mul(new(big.Int).SetUint64(t), big.NewInt(int64(n)))
@@ -423,6 +517,9 @@ func gen(g *fw.Gen) {
 	}
 	for n := g.ShareOf(20000, 1000000); n > 0; n-- {
 		g.Emit("score", fw.Pack(g.Bytes(8+g.Rng.Intn(300))))
+	}
+	for n := g.ShareOf(64, 3000); n > 0; n-- {
+		g.Emit("shared", fw.Pack(fw.U64(g.Rng.Uint64())))
 	}
 	// API level
 	for n := g.ShareOf(250, 12000); n > 0; n-- {
